@@ -112,3 +112,29 @@ Fixpoint view (j : nat) (log rest : list (res V)) : list (res V) * vtag :=
 Definition qtag (c : qcons) : vtag := match qph c with QStopped => VStopped | QFailed => VFailed | _ => VEnded end.
 
 End CopyProdStop.
+
+Section CopyProdStopEnabled.
+Context {V : Type}.
+Variable ncons : nat.
+
+Definition qenabled (m : @qstate V) (ch : qchoice) : bool :=
+  match ch with
+  | QPull => match qpp m with PGet => true | _ => false end
+  | QSend => match qpp m with
+             | PDist _ j => match nth_error (qcs m) j with Some (mkQ _ QRecv) => true | _ => false end
+             | _ => false
+             end
+  | QSkip => match qpp m with
+             | PDist _ j => match nth_error (qcs m) j with Some (mkQ _ QStopped) | Some (mkQ _ QFailed) => true | _ => false end
+             | _ => false
+             end
+  | QBreak => match qpp m with PDist _ _ => qerr m | _ => false end
+  | QReady j => match nth_error (qcs m) j with Some (mkQ _ QBusy) => true | _ => false end
+  | QEof j => match qpp m, nth_error (qcs m) j with PEnd, Some (mkQ _ QRecv) => true | _, _ => false end
+  end.
+
+Definition qweight (c : @qcons V) : nat := match qph c with QRecv => 1 | QBusy => 2 | _ => 0 end.
+Definition qwsum (cs : list (@qcons V)) : nat := fold_right (fun c n => qweight c + n) 0 cs.
+Definition qpweight (pp : @qprod V) : nat := match pp with PGet => 1 | PDist _ j => 2 * (ncons - j) + 2 | PEnd => 0 end.
+Definition qmeasure (m : @qstate V) : nat := (2 * ncons + 3) * length (qsrc m) + qpweight (qpp m) + qwsum (qcs m).
+End CopyProdStopEnabled.
